@@ -123,3 +123,20 @@ Proof.
   intros h lvl new var preds Ss names h'. exact (insert_cb_h_conserves h lvl new var preds Ss names h').
 Qed.
 Print Assumptions C05_header_unification_any_level_conserves.
+
+(* every edit that works on the dictionary of ONE level and is written back (both loop rotations, the early
+   return, the insertion in front of one successor) keeps every original block of the whole hierarchy - once,
+   same payload and parent, successors position by position unchanged or renamed to a name that was unused (an
+   inserted block; a block without successors may gain one such successor: the common exit) - and turns nothing else into an original block (Model/LevelCons.v).
+   The condition is one boolean about the new dictionary, evaluated on every call of loop_restructure_helper
+   and insert_block the pipeline makes. *)
+From V Require Import Model.Edits Model.LoopHier Model.LevelCons.
+Theorem C05_level_edit_conserves_b :
+  forall h lvl g', cons_okb h lvl g' = true ->
+    (forall x n p, find h x = Some n -> n_kind n = KOrig p ->
+       exists n', find (write_back h lvl g') x = Some n' /\ n_kind n' = KOrig p /\
+                  n_parent n' = n_parent n /\ SuccsKept h (n_jt n') (n_jt n)) /\
+    (forall x n' p, find (write_back h lvl g') x = Some n' -> n_kind n' = KOrig p ->
+       exists n, find h x = Some n /\ n_kind n = KOrig p).
+Proof. exact level_edit_conserves_b. Qed.
+Print Assumptions C05_level_edit_conserves_b.
